@@ -691,6 +691,19 @@ Qed.
 Lemma deq_at s S r : deq s S -> dep S r = dep s r.
 Proof. intros H. apply H. Qed.
 
+(* `locked` of the key after the cancelled record gave back its depth (0 for a plain waiter) *)
+Definition cancel_val (s : db) (k : N) (r : ref) : N :=
+  if 0 <? dep s r then sub32 (mlk s k) (dep s r) else mlk s k.
+
+Lemma mlk_chain_sub s U S k d :
+  mfr (updm U k (fun m => m <| m_locked := sub32 (m_locked m) d |>)) S -> mfr s U -> aget (mgrs s) k <> None ->
+  mlk S k = sub32 (mlk s k) d.
+Proof.
+  intros H1 H2 Hk. rewrite (mfr_mlk _ _ k H1).
+  rewrite (mlk_updm_locked U k (fun x => sub32 x d)); [|eapply mfr_has; eauto].
+  rewrite (mfr_mlk _ _ k H2). reflexivity.
+Qed.
+
 (* write the counters read by the replies as mlk / dep *)
 Ltac fold_counts :=
   repeat match goal with
